@@ -277,6 +277,17 @@ def kf_gm_broadcast(name, T, P, X, opts, w, mo):
     return np.average(out, weights=None if mo == "uniform_average" else mo)
 
 
+def gm_defect(name, T, P, X, opts, w, mo, got=None, raised=False):
+    """True iff the observed outcome (value `got`, or an exception) is exactly that of the mis-aligned weights"""
+    try:
+        bug = kf_gm_broadcast(name, T, P, X, opts, w, mo)
+    except Exception:
+        return raised
+    if raised:
+        return False
+    return np.shape(bug) == np.shape(got) and bool(np.allclose(np.asarray(got, dtype=float), bug, rtol=1e-9, atol=0))
+
+
 def check_fn(R, name, T, P, X, opts, w, mo, kind="array", start=0, tag=""):
     """one call of a metric function: formula (+ the laws that can be read off a single value)"""
     fam, _, agg, _, has_sym = SPECS[name]
@@ -290,12 +301,7 @@ def check_fn(R, name, T, P, X, opts, w, mo, kind="array", start=0, tag=""):
         got = call_fn(name, T, P, X, opts, w, mo, kind, start)
     except Exception as e:
         if gm_weighted:
-            try:
-                kf_gm_broadcast(name, T, P, X, opts, w, mo)
-                same_defect = False
-            except Exception:
-                same_defect = True
-            if same_defect:
+            if gm_defect(name, T, P, X, opts, w, mo, raised=True):
                 R.check("KF:weighted-geometric-mean-weights-not-aligned-with-horizon-axis", False, f"{desc}: raised {type(e).__name__}: {e}; expected {show(answers)}")
                 return None
         R.check("runs-on-valid-input", False, f"{desc}: raised {type(e).__name__}: {e}")
@@ -304,12 +310,7 @@ def check_fn(R, name, T, P, X, opts, w, mo, kind="array", start=0, tag=""):
     ok = matches(got, answers, mo != "raw_values")
     if not ok:
         if gm_weighted:
-            try:
-                bug = kf_gm_broadcast(name, T, P, X, opts, w, mo)
-                same = np.shape(bug) == np.shape(got) and np.allclose(np.asarray(got, dtype=float), bug, rtol=1e-9, atol=0)
-            except Exception:
-                same = False
-            if same:
+            if gm_defect(name, T, P, X, opts, w, mo, got=got):
                 R.check("KF:weighted-geometric-mean-weights-not-aligned-with-horizon-axis", False, f"{desc}: returned {got!r}, weighted geometric mean of the relative errors is {show(answers)}")
                 return got
         if name == "median_absolute_percentage_error" and w is not None and not opts.get("symmetric", True):
@@ -368,7 +369,7 @@ def check_perfect(R, name, T, X, opts, w, mo, kind="array"):
     try:
         got = call_fn(name, T, P, X, opts, w, mo, kind)
     except Exception as e:
-        if agg is a_gmean and w is not None:
+        if agg is a_gmean and w is not None and gm_defect(name, T, P, X, opts, w, mo, raised=True):
             R.check("KF:weighted-geometric-mean-weights-not-aligned-with-horizon-axis", False, f"{desc}: raised {type(e).__name__}: {e}")
         else:
             R.check("runs-on-valid-input", False, f"{desc}: raised {type(e).__name__}: {e}")
@@ -377,14 +378,9 @@ def check_perfect(R, name, T, X, opts, w, mo, kind="array"):
     if agg is a_gmean:
         floor = math.sqrt(EPS) if opts.get("square_root") else EPS
         ok = bool(np.all(np.abs(g - floor) <= 1e-9 * floor))
-        if not ok and w is not None:
-            try:
-                bug = kf_gm_broadcast(name, T, P, X, opts, w, mo)
-                if np.shape(bug) == np.shape(got) and np.allclose(np.asarray(got, dtype=float), bug, rtol=1e-9, atol=0):
-                    R.check("KF:weighted-geometric-mean-weights-not-aligned-with-horizon-axis", False, f"{desc}: returned {got!r}, floor is {floor!r}")
-                    return
-            except Exception:
-                pass
+        if not ok and w is not None and gm_defect(name, T, P, X, opts, w, mo, got=got):
+            R.check("KF:weighted-geometric-mean-weights-not-aligned-with-horizon-axis", False, f"{desc}: returned {got!r}, floor is {floor!r}")
+            return
         R.check("perfect-forecast-geometric-floor", ok, f"{desc}: returned {got!r}, documented floor {floor!r}")
     else:
         R.check("perfect-forecast-zero", bool(np.all(g == 0.0)), f"{desc}: returned {got!r}")
@@ -625,7 +621,7 @@ def bounded(tier, seed):
     nrand = 120 if quick else 900
     R = Recorder(
         "all 18 metric functions x all option combinations (symmetric, square_root, 12 asymmetric configurations, 5 inner losses of relative_loss): "
-        f"univariate exhaustive over values {V3 if quick else V4} for horizon lengths 1..3 ({V3} for length {3 if quick else 4} too), without weights and with "
+        f"univariate exhaustive over values {V3 if quick else V4} for horizon lengths 1..3{'' if quick else f' and {V3} for length 4 (5000 sampled pairs)'}, without weights and with "
         "one of 5 weight vectors (uniform/doubling/decreasing/fractional/with a zero); relative metrics exhaustive over (truth, forecast, benchmark) triples of length <=2; "
         f"scaled metrics over {len(TRAINS)} training series (constant, zeros, sign changes, lengths 2..11) x sp 1..{3 if quick else 5} x forecast pairs of length <=2; "
         f"{nrand} seeded random cases (horizon <= {5 if quick else 7}, 1-3 output columns, raw_values / uniform / weighted multioutput, ndarray / list / pandas with "
@@ -792,5 +788,7 @@ def replay(rec):
             if oth is not None and fam == "scaled":
                 oth = dict(oth, sp=1)
             check_class(R, name, T, P, B if fam in ("relative", "relative-loss") else (X if fam == "scaled" else None), opts, oth)
-    f = R.failures
-    return {"reproduced": bool(f), "detail": f[:3], "input": {"y_true": t, "y_pred": p, "y_pred_benchmark": b, "y_train": tr, "sp": sp, "metrics": names, "case": case}}
+    # a known finding (KF:) counts as a reproduction only if the replayed target is the function / class it is about
+    f = sorted(R.failures, key=lambda d: d["key"].startswith("KF:"))
+    hit = [d for d in f if not d["key"].startswith("KF:") or any((k in target or CLASS_OF[k] in target) and (k + "(" in d["detail"] or d["detail"].startswith(CLASS_OF[k] + " ")) for k in SPECS)]
+    return {"reproduced": bool(hit), "detail": (hit or f)[:3], "input": {"y_true": t, "y_pred": p, "y_pred_benchmark": b, "y_train": tr, "sp": sp, "metrics": names, "case": case}}
